@@ -32,7 +32,27 @@ type fsCase struct {
 	} `json:"files"`
 }
 
+func (c fsCase) viaLink() bool { return strings.HasSuffix(c.Spell, "_link") }
+
+func (c fsCase) physical() int {
+	best := 0
+	for _, s := range c.Stores {
+		if s <= c.Start && s > best {
+			best = s
+		}
+	}
+	return best
+}
+
 func (c fsCase) resolve() int {
+	if c.viaLink() {
+		for _, s := range c.Stores {
+			if s == c.Start {
+				return s
+			}
+		}
+		return 9
+	}
 	best := 0
 	for _, s := range c.Stores {
 		if s <= c.Start && s > best {
@@ -111,13 +131,25 @@ func (e *Env) runFSCase(c fsCase, idx int) (*Obs, error) {
 	}
 	target := c.resolve()
 	markerID := map[string]string{}
-	for _, lvl := range c.Stores {
+	storeLevels := append([]int{}, c.Stores...)
+	if c.viaLink() {
+		// another project with its own store; its `link` points at the start directory
+		levelDir[9] = filepath.Join(base, "q1")
+		if err := os.MkdirAll(levelDir[9], 0o755); err != nil {
+			return nil, err
+		}
+		if err := os.Symlink(levelDir[c.Start], filepath.Join(levelDir[9], "link")); err != nil {
+			return nil, err
+		}
+		storeLevels = append(storeLevels, 9)
+	}
+	for _, lvl := range storeLevels {
 		ed := filepath.Join(levelDir[lvl], ".ergo")
 		if err := os.MkdirAll(ed, 0o755); err != nil {
 			return nil, err
 		}
 		plans, events, lock := "full", "no", true
-		if lvl == target {
+		if lvl == target || (c.viaLink() && lvl == c.physical()) {
 			plans, events, lock = c.Files.Plans, c.Files.Events, c.Files.Lock
 		}
 		write := func(file, tag string, n int) error {
@@ -168,25 +200,50 @@ func (e *Env) runFSCase(c fsCase, idx int) (*Obs, error) {
 		cwd, pre = elsewhere, []string{"--dir", filepath.Join(sd, ".ergo")}
 	case "ergo_rel":
 		cwd, pre = sd, []string{"--dir", ".ergo"}
+	case "cwd_link":
+		cwd = filepath.Join(levelDir[9], "link")
+	case "dir_dot_link":
+		cwd, pre = filepath.Join(levelDir[9], "link"), []string{"--dir", "."}
+	case "dir_abs_link":
+		cwd, pre = elsewhere, []string{"--dir", filepath.Join(levelDir[9], "link")}
 	}
-	run := func(stdin []byte, args ...string) RunResult {
-		return st.runIn(cwd, stdin, nil, 15*time.Second, append(append([]string{}, pre...), args...)...)
+	// $PWD as a shell would set it: the path the user walked, links included
+	runAt := func(cwd string, pre []string, stdin []byte, args ...string) RunResult {
+		return st.runIn(cwd, stdin, []string{"PWD=" + cwd}, 15*time.Second, append(append([]string{}, pre...), args...)...)
 	}
-	// where
-	where := 0
-	rw := run(nil, "--json", "where")
-	if rw.Exit == 0 {
-		var w struct {
-			ErgoDir string `json:"ergo_dir"`
-		}
-		_ = json.Unmarshal(rw.Stdout, &w)
-		for lvl, d := range levelDir {
-			if real, _ := filepath.EvalSymlinks(filepath.Join(d, ".ergo")); real == w.ErgoDir || filepath.Join(d, ".ergo") == w.ErgoDir {
-				where = lvl
+	run := func(stdin []byte, args ...string) RunResult { return runAt(cwd, pre, stdin, args...) }
+	whereOf := func(rw RunResult) int {
+		where := 0
+		if rw.Exit == 0 {
+			var w struct {
+				ErgoDir string `json:"ergo_dir"`
+			}
+			_ = json.Unmarshal(rw.Stdout, &w)
+			named, err := filepath.EvalSymlinks(w.ErgoDir)
+			if err != nil {
+				named = w.ErgoDir
+			}
+			for lvl, d := range levelDir {
+				if real, _ := filepath.EvalSymlinks(filepath.Join(d, ".ergo")); real == named || filepath.Join(d, ".ergo") == w.ErgoDir {
+					where = lvl
+				}
+			}
+			if where == 0 {
+				where = 8 // names a directory that is not one of the stores
 			}
 		}
-		if where == 0 {
-			where = 9 // names a directory that is not one of the stores
+		return where
+	}
+	where := whereOf(run(nil, "--json", "where"))
+	linkWheres := []int{}
+	if c.viaLink() {
+		ln := filepath.Join(levelDir[9], "link")
+		linkWheres = append(linkWheres,
+			whereOf(runAt(ln, nil, nil, "--json", "where")),
+			whereOf(runAt(ln, []string{"--dir", "."}, nil, "--json", "where")),
+			whereOf(runAt(elsewhere, []string{"--dir", ln}, nil, "--json", "where")))
+		if where != 0 && where != 8 {
+			target = where // the reading of "enclosing" the binary follows; C18_where judges it
 		}
 	}
 	logTag := "plans"
@@ -272,7 +329,7 @@ func (e *Env) runFSCase(c fsCase, idx int) (*Obs, error) {
 	}
 	cfg := map[string]any{"stores": c.Stores, "start": c.Start, "spell": c.Spell,
 		"files": map[string]any{"plans": c.Files.Plans, "events": c.Files.Events, "lock": c.Files.Lock}}
-	fs := map[string]any{"cfg": cfg, "where": where, "cmds": cmds, "lock_after": lockAfter, "init": initRec}
+	fs := map[string]any{"cfg": cfg, "where": where, "link_wheres": linkWheres, "cmds": cmds, "lock_after": lockAfter, "init": initRec}
 	o := &Obs{Tag: "e7", Cmd: Cmd{"name": "layout", "mode": "json", "cfg": cfg},
 		Reply: Reply{IDs: []string{}, Edges: [][2]string{}, Pruned: []string{}}, Out: outFacts{JSON: true, Values: 1},
 		Pre: map[string]any{}, Post: map[string]any{}, LogPre: []map[string]any{}, LogPost: []map[string]any{}, Gone: []string{},
